@@ -580,6 +580,21 @@ func runSender(r *run) error {
 		}
 		runSenderCase(r, next(), c)
 	}
+	// (5) in every run: a peer that chose 128 KiB blocks and a long unmatched run: the largest single read
+	// request the search makes (pending literal + two blocks) against the window of 3 blocks
+	for _, tail := range []bool{false, true} {
+		basis := genData(g, 600000)
+		run := g.bytes(420000)
+		cut := 150000 + g.intn(1000)
+		target := append(append(append([]byte{}, basis[:cut]...), run...), basis[cut:]...)
+		kind := "window-growth-run"
+		if tail {
+			target, kind = append(append([]byte{}, basis[:cut]...), run...), "window-growth-tail"
+		}
+		c := &senderCase{seed: int32(g.next()), basis: basis, target: target, kind: kind}
+		c.head, c.sum1, c.sum2 = legalSums(c.seed, basis, 131072, 16)
+		runSenderCase(r, next(), c)
+	}
 	return nil
 }
 
